@@ -87,8 +87,8 @@ def fromPhrase (P : Prims) (phrase : Str) : Res Mnemonic :=
       else
         let buf := mkBuf P st.seed
         let checksumMask := (1 <<< st.bitOff) - 1
-        if (buf.headD 0 |> fun _ => ((P.sha256 st.seed).headD 0).toNat >>> (8 - st.bitOff))
-            = (st.acc &&& checksumMask) % 256 then
+        -- `hash[0] >> (8 - bit_offset) == (acc & checksum_mask) as u8`
+        if ((P.sha256 st.seed).headD 0).toNat >>> (8 - st.bitOff) = (st.acc &&& checksumMask) % 256 then
           .ok ⟨buf, len⟩
         else .err "mnemonic checksum verification failure"
 
